@@ -6,7 +6,9 @@ cd /repo || exit 2
 if ! git diff --quiet; then echo "/repo has uncommitted changes"; exit 2; fi
 git apply "$patch" || { echo "patch does not apply"; exit 2; }
 cd /verif
+rm -rf build/evidence.bak && cp -r evidence build/evidence.bak
 for p in "$@"; do
   timeout 1800 bin/check "$p" 2>&1 | grep -v "^KNOWN-FINDING" | tail -4
 done
+rm -rf /verif/evidence && mv /verif/build/evidence.bak /verif/evidence
 cd /repo && git checkout -- . && git status --short | head -3
